@@ -104,6 +104,10 @@ _wire("C14", 35, 900,
       "each run starts the real InterceptingListener (with or without an application base TLS config, registration wrapper, NodeIdLoader) and a gRPC-style accept loop, then sends 2-7 hostile connections: raw non-TLS bytes; ClientHellos whose ALPN list is built from the library prefixes with hostile suffixes (prefix only, shorter than the chunk header, non-digit header, non-base64, base64 of random / truncated / odd protobuf, valid signed fetch requests carrying hostile wrapped or re-wrapped blobs, mixed and duplicated prefixes, up to 60 KB); honest handshakes that the network drops at the k-th write of either side (with 0..200 bytes of that write delivered); partial hellos followed by a stall and a drop. Honest dials follow half of the hostile connections and always the last one; finally the base listener is closed or made to fail. Non-trivial: every hostile connection; distinct by (kind, class).",
       ["a peer that stalls forever blocks Accept by design (handshakes are inline); stalls here always end in a drop",
        "read/write deadlines are not modelled by simnet (the library sets none on this path)"])
+_wire("C02", 40, 900,
+      "each run registers 2-4 nodes (optionally under shared node IDs; storage with or without NodeIdLoader; optional application base TLS config) and plays a history of 4-14 operations: operator removes / re-registers a node, clock jumps with root rotation (3/8/15 days), honest protocol.Dial connections, and adversarial TLS clients drawn from {own leaf, stolen leaf without the key, leaf from a foreign CA, self-signed, server-auth leaf minted by the real roots for a victim's key} x {nonce signed by the presented key, (nonce,signature) replayed from an observed honest ClientHello, forged, missing} x skip_verification x common_name x node-ID hint {absent, own, foreign, unknown} x client state {none, signed, forged, unsigned} x certificate preference {valid, garbage, absent} x one-byte mutation of the base64 ALPN payload. Non-trivial: every adversarial or post-removal connection; distinct by the tuple of these choices and the model verdict.",
+      ["reference model: an authenticated connection requires possession of the presented leaf's key, a chain to a root that is current or next in server storage and valid now, and a stored record (of the presented leaf's actual public key, or under the named node ID when storage is a NodeIdLoader) whose key verifies the nonce signature actually sent",
+       "on the node-ID path the statement does not bind the peer's key to the verifying record (observation S12 in DESIGN.md): not judged"])
 
 HOOK_COMMITS = ["54f90f1 (H2: net/splitlistener.go scheduling points + net/verif_hook_{on,off}.go)",
                 "c914c74 (H1: protocol/dialer.go SimDial seam + protocol/verif_hook_{on,off}.go)"]
@@ -114,6 +118,7 @@ NOT_APPLICABLE["C20"] = ("pure function of its arguments (BreakIntoNextProtos/Co
                          "its failure modes are reached by the simulated workloads of C14 (malformed entries in a hostile ClientHello) and C07/C16 (honest payloads needing >99 chunks)")
 
 LEVEL_TEXT = {
+    "C02": "seeded simulation of honest and adversarial TLS peers against the real listener across register/remove/rotate histories; every authenticated connection is judged by a reference model recomputed from server storage and from what was actually sent.",
     "C14": "seeded simulation of hostile peers against the real listener: every Accept iteration runs under recover (a panic is a violation), every error for a hostile connection must be Temporary, a subsequent honest node must connect, non-temporary errors only after the base listener is closed or fails.",
     "C09": "seeded discrete-event simulation of rotation/re-enrollment histories over simulated years with cadences up to and including the stated bounds; invariants (never reset, roots stay trusted until the successor is valid, every node holds a valid trusted chain, ClientConfigs agrees) at probe instants around every event.",
     "C04": "seeded exploration of the full configuration product with lost-response retries and response substitution; every clause about response, certificates, server record and node storage is checked with independent crypto/x509/ecdh.",
